@@ -7,8 +7,11 @@ The generator (`gen_unit`, `directed_units`) is not trusted: whatever text it pr
 the tokenizer, judged by Cpp.tla, and given verbatim to the pre-processor under test.
 """
 import io
+import logging
 import re
 import subprocess
+
+logging.getLogger("preprocessor").setLevel(logging.CRITICAL)   # "Ignoring pragma" etc. are not observations
 
 KINDS = {"id": 1, "num": 2, "punct": 3, "str": 4, "chr": 5}
 KIND_NAMES = {v: k for k, v in KINDS.items()}
@@ -60,11 +63,16 @@ def enc_tok(kind, spelling, ws):
 
 
 def encode_unit(text):
-    """Source text -> list of lines, each a list of encoded tokens."""
+    """Source text -> list of lines, each a list of encoded tokens.  The first token of a line is
+    preceded by white space (the new-line character, 5.1.1.2 / 6.4p3)."""
     lines = text.split("\n")
     if lines and lines[-1] == "":
         lines.pop()
-    return [[enc_tok(*t) for t in lex_line(ln)] for ln in lines]
+    out = []
+    for ln in lines:
+        toks = lex_line(ln)
+        out.append([enc_tok(k, s, ws or j == 0) for j, (k, s, ws) in enumerate(toks)])
+    return out
 
 
 def encode_obs(tokens):
@@ -141,7 +149,7 @@ def ppci_text_observe(text, limit=4.0):
     except Exception as e:
         return failed_obs(type(e).__name__)
     try:
-        lines = [ln for ln in printed.split("\n") if not ln.startswith("# ")]   # line markers
+        lines = [ln for ln in printed.split("\n") if ln != '# 1 "unit.c"']   # the line marker of the unit itself
         return encode_obs([(k, s) for k, s, _ in lex_text("\n".join(lines))])
     except LexError:
         return failed_obs("UnlexableOutput")
@@ -648,3 +656,156 @@ def gen_unit(rng, profile=None, max_tokens=60):
         if 4 <= n <= max_tokens:
             return text
     raise RuntimeError("generator could not make a unit within the token budget")
+
+
+# =============================================================================
+# reference units: the examples of ISO/IEC 9899:2011 6.10.3.3 - 6.10.3.5 with the results the
+# standard itself states (text typed from the standard; `@` and the comment of EXAMPLE 4 left out,
+# the #include line of EXAMPLE 4 given as plain text).  Cpp.tla must reproduce them.
+# =============================================================================
+REFERENCE_UNITS = [
+    ("std-6.10.3.5-example3", r"""#define x 3
+#define f(a) f(x * (a))
+#undef x
+#define x 2
+#define g f
+#define z z[0]
+#define h g(~
+#define m(a) a(w)
+#define w 0,1
+#define t(a) a
+#define p() int
+#define q(x) x
+#define r(x,y) x ## y
+#define str(x) # x
+f(y+1) + f(f(z)) % t(t(g)(0) + t)(1);
+g(x+(3,4)-w) | h 5) & m
+(f)^m(m);
+p() i[q()] = { q(1), r(2,3), r(4,), r(,5), r(,) };
+char c[2][6] = { str(hello), str() };
+""", "ok", r"""f(2 * (y+1)) + f(2 * (f(2 * (z[0])))) % f(2 * (0)) + t(1);
+f(2 * (2+(3,4)-0,1)) | f(2 * (~ 5)) & f(2 * (0,1))^m(0,1);
+int i[] = { 1, 23, 4, 5, };
+char c[2][6] = { "hello", "" };"""),
+    ("std-6.10.3.5-example4", r"""#define str(s) # s
+#define xstr(s) str(s)
+#define debug(s, t) printf("x" # s "= %d, x" # t "= %s", x ## s, x ## t)
+#define INCFILE(n) vers ## n
+#define glue(a, b) a ## b
+#define xglue(a, b) glue(a, b)
+#define HIGHLOW "hello"
+#define LOW LOW ", world"
+debug(1, 2);
+fputs(str(strncmp("abc\0d", "abc", '\4')
+ == 0), s);
+include xstr(INCFILE(2).h)
+glue(HIGH, LOW);
+xglue(HIGH, LOW)
+""", "ok", r"""printf("x" "1" "= %d, x" "2" "= %s", x1, x2);
+fputs("strncmp(\"abc\\0d\", \"abc\", '\\4') == 0", s);
+include "vers2.h"
+"hello";
+"hello" ", world" """),
+    ("std-6.10.3.5-example5", r"""#define t(x,y,z) x ## y ## z
+int j[] = { t(1,2,3), t(,4,5), t(6,,7), t(8,9,),
+ t(10,,), t(,11,), t(,,12), t(,,) };
+""", "ok", "int j[] = { 123, 45, 67, 89, 10, 11, 12, };"),
+    ("std-6.10.3.3-hash_hash", r"""#define hash_hash # ## #
+#define mkstr(a) # a
+#define in_between(a) mkstr(a)
+#define join(c, d) in_between(c hash_hash d)
+char p[] = join(x, y);
+""", "ok", 'char p[] = "x ## y";'),
+    ("std-6.10.3.4-nested-unspecified", r"""#define f(a) a*g
+#define g(a) f(a)
+f(2)(9)
+""", "unspec", ""),
+    ("std-6.10.3.5-example6-redefinition", "#define OBJ_LIKE (1-1)\n#define OBJ_LIKE   (1-1)  \n"
+     "#define FUNC_LIKE(a) ( a )\n#define FUNC_LIKE( a )(    a    )\nOBJ_LIKE FUNC_LIKE(2)\n", "ok", "(1-1) ( 2 )"),
+    ("std-6.10.3.5-example6-invalid-redefinition", "#define OBJ_LIKE (1-1)\n#define OBJ_LIKE (1 - 1)\nOBJ_LIKE\n",
+     "invalid", ""),
+    ("std-6.10.1-conversions", "#if -1 < 0u\nno\n#else\nyes\n#endif\n#if -7 / 2 == -3 && -7 % 2 == -1 && 5 / -2 == -2\nyes\n#endif\n"
+     "#if 0xFFFFFFFFFFFFFFFF == -1\nyes\n#endif\n#if (2 || 1 / 0) && !(0 && 1 / 0) && (1 ? 2 : (1 / 0))\nyes\n#endif\n"
+     "#if (1 ? -1 : 0u) > 0\nyes\n#endif\n",
+     "ok", "yes yes yes yes yes"),
+]
+
+
+# =============================================================================
+# directed units: one construct each (name, text)
+# =============================================================================
+DIRECTED_UNITS = [
+    ("object-like", "#define A 1 + 2\nA A\n"),
+    ("object-like-empty", "#define A\nx A y A\n"),
+    ("object-like-empty-at-end", "#define A\nx A\n"),
+    ("object-like-self", "#define A A + 1\nA\n"),
+    ("object-like-mutual", "#define A B x\n#define B A y\nA B\n"),
+    ("object-like-chain", "#define A B\n#define B C\n#define C 7\nA\n"),
+    ("object-like-paren-body", "#define A (x)\nA(1)\n"),
+    ("function-like", "#define f(x) [x]\nf(1) f(a b) f((1,2))\n"),
+    ("function-like-zero-params", "#define f() z\nf() f( ) f\n"),
+    ("function-like-three-params", "#define f(x,y,z) z y x\nf(1,2,3) f(,,) f(a,(b,c),d)\n"),
+    ("function-like-without-paren", "#define f(x) [x]\nf + f ; f\n"),
+    ("function-like-name-then-macro", "#define f(x) [x]\n#define A (1)\n#define B b\nf A f B\n"),
+    ("function-like-name-from-object", "#define f(x) [x]\n#define g f\ng(1) g (2) g\n"),
+    ("function-like-spans-lines", "#define f(x,y) x-y\nf(1,\n2) f\n(3,4)\n"),
+    ("function-like-self", "#define f(x) f(x) + 1\nf(1) f(f(2))\n"),
+    ("function-like-mutual", "#define f(x) g(x) a\n#define g(x) f(x) b\nf(1) g(2)\n"),
+    ("function-like-result-called", "#define f(x) x\n#define g(y) <y>\nf(g)(1) f(f)(2)\n"),
+    ("argument-is-macro", "#define f(x) x x\n#define A 1 2\nf(A)\n"),
+    ("argument-empty", "#define f(x) [x]\n#define g(x,y) [x|y]\nf() g(,) g(a,) g(,b)\n"),
+    ("argument-prescan-hidden", "#define f(x) x\n#define g f(g)\ng\n"),
+    ("argument-prescan-nested", "#define f(x) x+f(x)\n#define A f(A)\nf(A)\n"),
+    ("argument-nested-calls", "#define f(x) (x)\n#define g(x,y) x*y\ng(f(1),f(g(2,3)))\n"),
+    ("argument-unbalanced-in-body", "#define h g(~\n#define g(x) [x]\nh 5) h f(1))\n"),
+    ("stringize-spaced", "#define s(x) #x\ns(a) s(a b) s( a  +  b ) s() s( ) s(a   b)\n"),
+    ("stringize-adjacent", "#define s(x) #x\ns(a+b) s(a+ b) s((a,b)) s(f(1))\n"),
+    ("stringize-escape", "#define s(x) #x\ns(\"q\\\"r\") s('\"') s(\"\\\\\") s('\\\\') s(\"a\\n\") s(\"a b\" 'c' d)\n"),
+    ("stringize-not-expanded", "#define s(x) #x x\n#define A 1\ns(A)\n"),
+    ("stringize-via-helper", "#define s(x) #x\n#define xs(x) s(x)\n#define A 1 +2\nxs(A) xs(A A)\n"),
+    ("stringize-hash-space", "#define s(x) # x\ns(1) s(a,) \n#define t(x,y) #y #x\nt(a b,c)\n"),
+    ("paste", "#define c(x,y) x##y\nc(a,b) c(a,1) c(1,2) c(+,=) c(<,<) c(-,>) c(x,) c(,y) c(,)\n"),
+    ("paste-spaces", "#define c(x,y) x ## y\nc( a , b ) c(a b,c d)\n"),
+    ("paste-chain", "#define c(x,y,z) x##y##z\nc(a,b,c) c(a,,c) c(,,c) c(a,,) c(1,2,3)\n"),
+    ("paste-not-expanded", "#define c(x,y) x##y y\n#define A 1\n#define AA 2\nc(A,A)\n"),
+    ("paste-result-expanded", "#define c(x,y) x##y\n#define AB 7\n#define A q\nc(A,B) c(A,)\n"),
+    ("paste-result-self", "#define c(x,y) x##y\n#define ab c(a,b) z\nab\n"),
+    ("paste-object-like", "#define A x ## y\n#define B 1 ## 2 ## 3\nA B\n"),
+    ("paste-pp-number", "#define c(x,y) x##y\nc(1,x) c(12,ab) c(0,x1F) c(1,e) c(.,5) c(1,.)\n"),
+    ("paste-hashhash-from-argument", "#define f(x) x\n#define g(x,y) x y\nf(a ## b) g(a ##, b)\n"),
+    ("paste-hash-in-object-like", "#define A # x\n#define B x # y\nA B\n"),
+    ("undef", "#define A 1\nA\n#undef A\nA\n#undef A\n#define A 2\nA\n"),
+    ("redefinition-identical", "#define A 1 + 2\n#define A 1 + 2\n#define f(x) x  y\n#define f(x) x y\nA f(1)\n"),
+    ("use-before-definition", "A f(1)\n#define A 1\n#define f(x) x\nA f(2)\n"),
+    ("ifdef", "#define A\n#ifdef A\nyes\n#else\nno\n#endif\n#ifndef A\nno\n#else\nyes\n#endif\n#ifdef B\nno\n#endif\n"),
+    ("if-elif-else", "#if 0\na\n#elif 0\nb\n#elif 1\nc\n#elif 1\nd\n#else\ne\n#endif\n#if 1\nf\n#elif 1\ng\n#else\nh\n#endif\n#if 0\ni\n#else\nj\n#endif\n"),
+    ("if-nested", "#if 1\n#if 0\na\n#else\nb\n#endif\nc\n#else\n#if 1\nd\n#endif\ne\n#endif\n"),
+    ("if-nested-in-skipped", "#if 0\n#if 1\na\n#else\nb\n#endif\n#elif 1\nc\n#ifdef Q\nd\n#elif 1\ne\n#endif\n#else\nf\n#endif\n"),
+    ("ifdef-nested-in-skipped", "#if 0\n#ifdef Q\na\n#else\nb\n#endif\nc\n#else\nd\n#endif\n"),
+    ("ifndef-nested-in-skipped", "#if 0\n#ifndef Q\na\n#else\nb\n#endif\nc\n#else\nd\n#endif\n#ifdef Q\n#ifndef Q\ne\n#elif 1\nf\n#endif\n#elif 1\ng\n#endif\n"),
+    ("if-nested-in-done", "#if 1\na\n#else\n#if 1\nb\n#else\nc\n#endif\n#ifndef Q\nd\n#endif\n#endif\ne\n"),
+    ("if-skipped-directives", "#if 0\n#define A 1\n#undef B\n#\n#bogus\n x y ( \n#else\n#define B 2\n#endif\nA B\n"),
+    ("if-null-directive-skipped", "#if 0\n#\n#endif\nx\n#if 1\n#\ny\n#endif\n"),
+    ("if-define-in-group", "#if 1\n#define A 1\n#else\n#define A 2\n#endif\nA\n#if 0\n#undef A\n#endif\nA\n"),
+    ("if-defined", "#define A\n#if defined A && defined(A) && !defined B && !defined ( B )\nyes\n#endif\n#if defined(B) || defined A\nyes\n#endif\n"),
+    ("if-macro-expanded", "#define A 3\n#define f(x) x+1\n#if A == 3 && f(2) == 3 && f(A)*2 == 5\nyes\n#endif\n#if B\nno\n#elif B == 0 && undefined_name == 0\nyes\n#endif\n"),
+    ("if-function-like-name-last", "#define f(x) x\n#if 1 - f\na\n#endif\n#if f\nb\n#else\nc\n#endif\n#if 1 + f + 1\nd\n#endif\n"),
+    ("if-truncating-division", "#if -7 / 2 == -3\na\n#endif\n#if -7 % 2 == -1\nb\n#endif\n#if 7 / -2 == -3\nc\n#endif\n#if 7 % -2 == 1\nd\n#endif\n#if -7 / -2 == 3\ne\n#endif\n"),
+    ("if-unsigned-conversion", "#if -1 < 0u\nno\n#else\na\n#endif\n#if -1 > 0u\nb\n#endif\n#if (0u - 1) / 2 == 0x7FFFFFFFFFFFFFFF\nc\n#endif\n#if -1 / 2u == 0x7FFFFFFFFFFFFFFF\nd\n#endif\n"),
+    ("if-unsigned-wrap", "#if 0u - 1 == 18446744073709551615u\na\n#endif\n#if ~0u == 0xFFFFFFFFFFFFFFFF\nb\n#endif\n#if 18446744073709551615u + 1 == 0\nc\n#endif\n#if -1u > 0\nd\n#endif\n"),
+    ("if-literal-types", "#if 0xFFFFFFFFFFFFFFFF > 0\na\n#endif\n#if 0x8000000000000000 > 0\nb\n#endif\n#if 9223372036854775807 + 0 > 0\nc\n#endif\n#if 0xFFFFFFFFFFFFFFFF == -1\nd\n#endif\n#if 010 == 8 && 0x10 == 16 && 1L == 1 && 1ul == 1 && 2LLU == 2\ne\n#endif\n"),
+    ("if-shifts", "#if 1u << 63 == 0x8000000000000000\na\n#endif\n#if 1 << 62 == 0x4000000000000000\nb\n#endif\n#if 0xFFFFFFFFFFFFFFFF >> 63 == 1\nc\n#endif\n#if (1u << 63) >> 62 == 2\nd\n#endif\n"),
+    ("if-conditional-operator", "#if (1 ? 2 : 3) == 2 && (0 ? 2 : 3) == 3\na\n#endif\n#if (1 ? -1 : 0u) > 0\nb\n#endif\n#if (0 ? 0u : -1) > 0\nc\n#endif\n#if 1 ? 0 : 1\nno\n#else\nd\n#endif\n"),
+    ("if-logic-bitwise", "#if (3 & 5) == 1 && (3 | 5) == 7 && (3 ^ 5) == 6 && ~0 == -1 && !0 == 1 && !5 == 0\na\n#endif\n#if 1 || 0 && 0\nb\n#endif\n#if (2 > 1) + (2 >= 2) + (1 < 2) + (2 <= 2) + (1 != 2) + (2 == 2) == 6\nc\n#endif\n"),
+    ("if-precedence", "#if 1 + 2 * 3 == 7 && 8 - 4 - 2 == 2 && 16 / 4 / 2 == 2 && 1 << 2 + 1 == 8 && (1 | 2 & 3) == 3 && - - 1 == 1 && -1 - -1 == 0\na\n#endif\n"),
+    ("if-short-circuit", "#if 0 && 1 / 0\nno\n#elif 1 || 1 / 0\na\n#endif\n#if 1 ? 1 : 1 / 0\nb\n#endif\n"),
+    ("if-elif-not-evaluated", "#define A 0\n#if 1\na\n#elif 1 / A\nb\n#endif\n"),
+    ("hash-from-macro-at-line-start", "#define H #\n#define D define\nH D x 1\nx\nH\n"),
+    ("not-modelled-pragma", "a\n#pragma once\nb\n"),
+    ("not-modelled-include", "#include <stddef.h>\nb\n"),
+    ("not-modelled-line", "#line 7\nb\n"),
+    ("not-modelled-error", "#if 0\n#error no\n#endif\na\n"),
+    ("not-modelled-variadic", "#define f(...) __VA_ARGS__\nf(1,2)\n"),
+    ("printed-empty-expansion-between", "#define E\n#define f(x)\na E b f(1)c +E+ -f(2)- a E+ f(3)E f(4)d\n"),
+    ("printed-adjacent-tokens", "#define f(x) x\n#define m -\n#define p +\nf(a)b -m p+ f(1)2 f(<)< f(-)> m=\n"),
+]
